@@ -9,6 +9,7 @@ package main
 
 import (
 	"fmt"
+	"go/token"
 	"go/types"
 	"sort"
 	"strings"
@@ -81,11 +82,22 @@ func runDiscipline(s *Session, prop string, verified map[string]bool) *Disciplin
 					if g := globalRoot(i.Addr); g != nil && fn.Name() != "init" && !strings.HasPrefix(fn.Name(), "init#") {
 						globals = append(globals, g.Name())
 					}
+					if f, shared := receiverMemory(fn, i.Addr); shared && !processMemoryAllowed[f] {
+						globals = append(globals, "process memory behind receiver field "+f+" (store through a pointer)")
+					}
 				case *ssa.MapUpdate:
 					if g := globalRoot(i.Map); g != nil && fn.Name() != "init" && !strings.HasPrefix(fn.Name(), "init#") {
 						globals = append(globals, g.Name()+" (map update)")
 					}
+					if f, _ := receiverMemory(fn, i.Map); f != "" && !processMemoryAllowed[f] {
+						globals = append(globals, "process memory behind receiver field "+f+" (map update)")
+					}
 				case ssa.CallInstruction:
+					if b, ok := i.Common().Value.(*ssa.Builtin); ok && b.Name() == "delete" && len(i.Common().Args) > 0 {
+						if f, _ := receiverMemory(fn, i.Common().Args[0]); f != "" && !processMemoryAllowed[f] {
+							globals = append(globals, "process memory behind receiver field "+f+" (map delete)")
+						}
+					}
 					f := i.Common().StaticCallee()
 					if f == nil || f.Pkg == nil {
 						continue
@@ -107,6 +119,9 @@ func runDiscipline(s *Session, prop string, verified map[string]bool) *Disciplin
 							for _, a := range i.Common().Args {
 								if g := globalRoot(a); g != nil {
 									globals = append(globals, g.Name()+" (via "+f.String()+")")
+								}
+								if fd, _ := receiverMemory(fn, a); fd != "" && !processMemoryAllowed[fd] {
+									globals = append(globals, "process memory behind receiver field "+fd+" (via "+f.String()+")")
 								}
 							}
 						}
@@ -149,6 +164,105 @@ func onlyTelemetry(v ssa.Value) bool {
 		}
 	}
 	return true
+}
+
+// processMemoryAllowed: receiver fields that are per-process memory by design (listed in the evidence notes).
+var processMemoryAllowed = map[string]bool{"Keeper.ExecutorChangePlans": true}
+
+// receiverMemory: v is reached through a field of the method receiver (a keeper, msg server, handler, store wrapper ...).
+// Such memory outlives the transaction and is not part of the revertible store: a cache or registry kept there makes
+// results depend on the process history. Returns "Type.field" and whether the path goes through a pointer load
+// (memory shared with other calls even for a value receiver).
+func receiverMemory(fn *ssa.Function, v ssa.Value) (string, bool) {
+	if fn.Signature.Recv() == nil || len(fn.Params) == 0 {
+		return "", false
+	}
+	recv := fn.Params[0]
+	field, viaPtr := "", false
+	for d := 0; d < 12; d++ {
+		switch a := v.(type) {
+		case *ssa.FieldAddr:
+			st, _ := deref(a.X.Type()).Underlying().(*types.Struct)
+			if st != nil {
+				field = st.Field(a.Field).Name()
+			}
+			v = a.X
+		case *ssa.Field:
+			st, _ := a.X.Type().Underlying().(*types.Struct)
+			if st != nil {
+				field = st.Field(a.Field).Name()
+			}
+			v = a.X
+		case *ssa.IndexAddr:
+			v = a.X
+		case *ssa.UnOp:
+			if a.Op == token.MUL {
+				viaPtr = true
+			}
+			v = a.X
+		case *ssa.Alloc:
+			// the receiver spilled to a local (value receiver whose address is taken): follow the initial store
+			var src ssa.Value
+			if refs := a.Referrers(); refs != nil {
+				for _, r := range *refs {
+					if st, ok := r.(*ssa.Store); ok && st.Addr == a {
+						if p, ok := st.Val.(*ssa.Parameter); ok && p == recv {
+							src = p
+						}
+					}
+				}
+			}
+			if src == nil {
+				return "", false
+			}
+			v = src
+		case *ssa.Parameter:
+			if a != recv || field == "" {
+				return "", false
+			}
+			n := namedPath(deref(a.Type()))
+			if !strings.HasPrefix(n, repoPrefix) || !isServiceType(deref(a.Type()), 0) {
+				// plain data (messages, genesis states, sortable lists) is not process memory
+				return "", false
+			}
+			if _, isPtr := a.Type().Underlying().(*types.Pointer); isPtr {
+				viaPtr = true
+			}
+			return lastSeg(n) + "." + field, viaPtr
+		default:
+			return "", false
+		}
+	}
+	return "", false
+}
+
+// isServiceType: a struct that holds store collections, keeper interfaces or callbacks (keepers, msg servers, queriers,
+// handlers, decorators, store wrappers) - an object that lives as long as the process, unlike messages and other data.
+func isServiceType(t types.Type, depth int) bool {
+	st, ok := t.Underlying().(*types.Struct)
+	if !ok || depth > 3 {
+		return false
+	}
+	for i := 0; i < st.NumFields(); i++ {
+		ft := st.Field(i).Type()
+		if strings.HasPrefix(namedPath(deref(ft)), "cosmossdk.io/collections") {
+			return true
+		}
+		switch u := deref(ft).Underlying().(type) {
+		case *types.Interface:
+			// codecs are stateless helpers that data types carry too (types.Validators holds an address codec)
+			if u.NumMethods() > 0 && !strings.HasSuffix(namedPath(deref(ft)), ".Codec") {
+				return true
+			}
+		case *types.Signature:
+			return true
+		case *types.Struct:
+			if isServiceType(deref(ft), depth+1) {
+				return true
+			}
+		}
+	}
+	return false
 }
 
 // globalRoot follows field / index / load chains back to a package-level variable.
